@@ -132,6 +132,10 @@ func init() {
 			return []Oracle{&HandoffOracle{}, &CapacityOracle{prop: "C01", as: "C12"}, &CapacityOracle{prop: "C02", as: "C12"}}
 		},
 	}
+	Props["C17"] = PropDef{
+		Gen:     GenC17Script,
+		Oracles: func() []Oracle { return nil },
+	}
 	Props["C02"] = PropDef{
 		Gen: func(t *rapid.T, thorough bool) *Script {
 			o := mixedOpts(thorough)
